@@ -1132,6 +1132,13 @@ func setReadonlyRule(p *chk.Prog, r *chk.Report) {
 func emptyListValue(f *chk.Fn, v chk.ReachingValue, obj types.Object) bool {
 	if v.Rhs == nil {
 		// `var w []T`
+		if vs, ok := v.Def.Node.(*ast.ValueSpec); ok && len(vs.Values) == 0 {
+			for _, nm := range vs.Names {
+				if f.Info().Defs[nm] == obj {
+					return true
+				}
+			}
+		}
 		if ds, ok := v.Def.Node.(*ast.DeclStmt); ok {
 			if gd, ok := ds.Decl.(*ast.GenDecl); ok {
 				for _, sp := range gd.Specs {
